@@ -34,6 +34,7 @@ type Model struct {
 	Blocks []Block
 	Raw    *sx.Node
 	DumpWF bool // Pipeline.dump_wf_b on the dump: the hypothesis of the no-panic theorem
+	RankOK bool // Pipeline.rank_ok_b: the hypothesis of the no-fuel-exhaustion theorem
 }
 
 type Block struct {
@@ -64,6 +65,7 @@ func DecodeModel(n *sx.Node) Model {
 	if len(n.List) > 0 {
 		if last := n.List[len(n.List)-1]; !last.IsAtom && last.Tag() == "wf" {
 			m.DumpWF = last.Arg(0).Str() == "1"
+			m.RankOK = last.Arg(1) != nil && last.Arg(1).Str() == "1"
 		}
 	}
 	switch m.Kind {
@@ -146,6 +148,9 @@ type Diff struct {
 // Compare projects both sides and lists the disagreements. Unsup/decode errors are reported by the caller.
 func Compare(im Impl, m Model) []Diff {
 	var ds []Diff
+	if !m.RankOK && m.Kind != "decode-error" {
+		ds = append(ds, Diff{"well-founded struct containment (Pipeline.rank_ok_b, hypothesis of C14_no_fuel_exhaustion)", "true for every dump the harness produces", "false"})
+	}
 	if !m.DumpWF && m.Kind != "decode-error" {
 		ds = append(ds, Diff{"dump well-formedness (Pipeline.dump_wf_b, hypothesis of C14_no_panic)", "true for every dump the harness produces", "false"})
 	}
